@@ -591,6 +591,63 @@ Section Keep.
   Qed.
 
 
+  (* ---- the same for EVERY document: exactly the matching text runs of the document ---- *)
+  Definition keep_runs (rs : list (N * str)) : list pnode :=
+    map (fun ct => PStr (fst ct) (snd ct)) (filter (fun ct => string_allowed (snd ct)) rs).
+
+  Lemma keep_runs_app a b : keep_runs (a ++ b) = keep_runs a ++ keep_runs b.
+  Proof. unfold keep_runs. now rewrite filter_app, map_app. Qed.
+
+  Lemma runs_node_tag n p a ks : runs_node cfg (DTag n p a ks) = text_runs cfg [] ks.
+  Proof.
+    cbn [runs_node].
+    assert (E : forall l pending,
+      (fix go (pending : list str) (l : list dnode) {struct l} : list (N * str) :=
+         match l with
+         | [] => run_of cfg pending None
+         | DText cs :: l' => go (rev cs ++ pending) l'
+         | DSpecial c t :: l' => run_of cfg pending None ++ run_of cfg [t] (Some c) ++ go [] l'
+         | (DTag _ _ _ _ as d') :: l' => run_of cfg pending None ++ runs_node cfg d' ++ go [] l'
+         end) pending l = text_runs cfg pending l).
+    { induction l as [|d l IH]; intros pending; [reflexivity|].
+      destruct d; cbn [text_runs]; rewrite ?IH; reflexivity. }
+    apply E.
+  Qed.
+
+  Lemma flush_run pending base :
+    flush (Some sr) cfg true (root_pw cfg) (root_sc cfg) pending base = keep_runs (run_of cfg pending base).
+  Proof.
+    unfold StrainerProofs.flush, string_rejected, keep_runs, run_of. destruct pending as [|c pending]; [reflexivity|].
+    cbn [andb filter snd fst map].
+    change (doc_pw cfg) with (root_pw cfg). change (doc_class cfg base) with (cls_sel (root_sc cfg) base).
+    fold (string_allowed (gathered cfg (root_pw cfg) (is_special base) (c :: pending))).
+    destruct (string_allowed (gathered cfg (root_pw cfg) (is_special base) (c :: pending))); reflexivity.
+  Qed.
+
+  Definition RR (d : dnode) : Prop :=
+    dsem_node (Some sr) cfg true (root_pw cfg) (root_sc cfg) d = keep_runs (runs_node cfg d).
+
+  Lemma runs_list (SF : string_filter sr = true) ds : Forall RR ds -> forall pending,
+    dsem_list (Some sr) cfg true (root_pw cfg) (root_sc cfg) pending ds = keep_runs (text_runs cfg pending ds).
+  Proof.
+    induction 1 as [|d ds Hd Hds IH]; intros pending; cbn [StrainerProofs.dsem_list text_runs].
+    - apply flush_run.
+    - destruct d as [n p a ks|cs|c t].
+      + now rewrite !keep_runs_app, <- flush_run, Hd, IH.
+      + apply IH.
+      + now rewrite !keep_runs_app, <- !flush_run, IH.
+  Qed.
+
+  Lemma all_RR (SF : string_filter sr = true) : forall d, RR d.
+  Proof.
+    induction d as [n p a ks IHks|cs|c t] using dnode_ind'; [|reflexivity|reflexivity].
+    unfold RR. rewrite dsem_node_tag, runs_node_tag. cbv zeta.
+    assert (RJ : tag_rejected pat_sem fun_sem (Some sr) true p n a = true).
+    { unfold tag_rejected. cbn [andb]. pose proof (string_filter_rejects_tags SF n p a) as E.
+      unfold StrainerSpec.allowed in E. now rewrite E. }
+    rewrite RJ. now apply (runs_list SF ks IHks).
+  Qed.
+
   (* ---- a filter mixing both kinds keeps nothing ---- *)
   Lemma mixed_rejects : mixed_filter sr = true ->
     (forall n p a, allowed n p a = false) /\ (forall t, string_allowed t = false).
@@ -663,6 +720,17 @@ Section Final.
     apply Forall_forall. intros d _. now apply all_RS.
   Qed.
 
+  (* C16, second sentence, for EVERY document: the selective parse is exactly the matching text runs of the
+     document (text_runs: adjacent text separated by dropped tags is not merged; each run is stored the way the
+     document level stores text) *)
+  Theorem string_only_filter_runs ds :
+    string_filter sr = true ->
+    zfeed pat_sem fun_sem (Some sr) cfg (brackets_f ds) = keep_runs pat_sem fun_sem sr (text_runs cfg [] ds).
+  Proof.
+    intros SF. rewrite zfeed_dsem. apply (runs_list pat_sem fun_sem cfg sr SF).
+    apply Forall_forall. intros d _. now apply all_RR.
+  Qed.
+
   (* C16, third sentence *)
   Theorem mixed_keeps_nothing ds :
     mixed_filter sr = true ->
@@ -703,6 +771,19 @@ Lemma rejected_context_refuted :
 Proof.
   exists doc_pre_b. repeat split; try reflexivity. vm_compute. discriminate.
 Qed.
+
+(* OPEN FINDING C16-string-filter-lost-context: compared with the FULL parse, a string-only filter does not keep
+   "exactly the strings it matches" once a dropped element would have changed how its text is stored:
+   <pre> \n </pre> with SoupStrainer(string=" \n ") keeps nothing although the full parse contains that very
+   string (the selective parse never opens <pre>, collapses the run to "\n", and then asks the filter) *)
+Definition sr_ws : strainer := mk_strainer c_none (AttrsDict []) (COne (AtStr [32; 10; 32]%N)) [].
+Definition doc_pre_ws : list dnode := [DTag (lit "pre") None [] [DText [[32; 10; 32]%N]]].
+Lemma string_filter_context_refuted :
+  exists ds,
+    string_filter sr_ws = true /\
+    zfeed no_pat16 no_fun16 (Some sr_ws) html_cfg (brackets_f ds) <>
+    keep_strings no_pat16 no_fun16 sr_ws (zfeed no_pat16 no_fun16 None html_cfg (brackets_f ds)).
+Proof. exists doc_pre_ws. split; [reflexivity|]. vm_compute. discriminate. Qed.
 
 (* the hypotheses of parse_only_outermost are satisfiable, on a document that has a rejected
    whitespace-preserving element (without kept descendants), nesting, attributes and text *)
